@@ -82,8 +82,8 @@ def cases(tier, seed):
             for mode in ('symbolic', 'numeric'):
                 out.append(dict(kind='expr', cfg=cfg, expr=e, mode=mode, res_like=False))
             out.append(dict(kind='expr', cfg=cfg, expr=e, mode='symbolic', res_like=True))
-        out.append(dict(kind='expr', cfg=cfg, expr='sw', mode='array', res_like=False))
-        out.append(dict(kind='expr', cfg=cfg, expr='gp', mode='array', res_like=False))
+        for e in ('sw', 'gp', 'odd', 'gp-right', 'half'):
+            out.append(dict(kind='expr', cfg=cfg, expr=e, mode='array', res_like=False))
     return out
 
 
@@ -100,6 +100,10 @@ EXPRS = {
     'rp': ('lambda R, x: R & x', 'bivector', 'full'),
     'proj': ('lambda R, x: (x | R) * ~R', 'vector', 'vector'),
     'two': ('lambda S, R, x: S * x * R', 'vector', 'even', 'vector'),
+    'half': ('lambda R, x: (R * x) / 2', 'even', 'vector'),
+    'inv-sw': ('lambda R, x: R.inv() >> x', 'vector', 'vector'),
+    'right-div': ('lambda R, x: x * R.inv()', 'bivector', 'full'),
+    'odd': ('lambda R, x: R * x - x * R', 'odd', 'full'),
 }
 
 
@@ -110,6 +114,8 @@ def _keys_of(alg, what):
         return order
     if what == 'even':
         return [k for k in order if pc(k) % 2 == 0]
+    if what == 'odd':
+        return [k for k in order if pc(k) % 2 == 1]
     if what == 'vector':
         return [k for k in order if pc(k) == 1]
     if what == 'bivector':
@@ -226,6 +232,11 @@ def _run_expr(desc, V, alg):
             for k in direct:
                 if k not in ykeys:
                     claims.append(Eq(f'y-missing[{t},{k}]', 0, direct[k], fkey=f'expr|{mode}|y'))
+            # y itself (a multivector with array-valued sympy/number coefficients): element t equals the direct evaluation
+            for k, v in coeffs(y).items():
+                vt = v[t] if hasattr(v, '__len__') else v
+                vt = sy2z3.to_value(vt, env) if isinstance(vt, sympy.Basic) else (sym.snap_float(float(vt)) if isinstance(vt, (float, np.floating)) else vt)
+                claims.append(Eq(f'y[{t},{k}]', vt, direct.get(k, 0), fkey=f'expr|{mode}|y'))
         return claims
     direct = coeffs(f(*num_inputs))
     Y = {k: sy2z3.to_value(v, env) if isinstance(v, sympy.Basic) else v for k, v in coeffs(y).items()}
